@@ -128,9 +128,9 @@ harness!(sse2, 20, c05_sse2_dna_l17, encode_into_body::<Dna, _, 17>(&sse2()));
 harness!(sse2, 37, c05_sse2_dna_l34, encode_into_body::<Dna, _, 34>(&sse2()));
 //@ C05 quick 800 SSE2 encode_into, protein, 18 symbolic bytes
 harness!(sse2, 24, c05_sse2_protein_l18, encode_into_body::<Protein, _, 18>(&sse2()));
-//@ C05 thorough 300 SSE2 encode_into, DNA, 1 symbolic byte
+//@ C05 quick 800 SSE2 encode_into, DNA, 1 symbolic byte
 harness!(sse2, 20, c05_sse2_dna_l1, encode_into_body::<Dna, _, 1>(&sse2()));
-//@ C05 thorough 900 SSE2 encode_into, protein, 35 symbolic bytes
+//@ C05 quick 800 SSE2 encode_into, protein, 35 symbolic bytes
 harness!(sse2, 38, c05_sse2_protein_l35, encode_into_body::<Protein, _, 35>(&sse2()));
 
 // --- AVX2 (vector loop runs while i + 32 <= L) ----------------------------------
@@ -146,7 +146,7 @@ harness!(avx2, 36, c05_avx2_dna_l33, encode_into_body::<Dna, _, 33>(&avx2()));
 harness!(avx2, 36, c05_avx2_protein_l33, encode_into_body::<Protein, _, 33>(&avx2()));
 //@ C05 quick 800 AVX2 encode_into, DNA, 65 symbolic bytes (two blocks + 1 tail byte: error flag must accumulate across blocks)
 harness!(avx2, 68, c05_avx2_dna_l65, encode_into_body::<Dna, _, 65>(&avx2()));
-//@ C05 thorough 1800 AVX2 encode_into, protein, 64 symbolic bytes (two blocks)
+//@ C05 quick 800 AVX2 encode_into, protein, 64 symbolic bytes (two blocks)
 harness!(avx2, 67, c05_avx2_protein_l64, encode_into_body::<Protein, _, 64>(&avx2()));
 
 // --- dispatcher arms (hook H1) ------------------------------------------------------
@@ -156,7 +156,7 @@ harness!(avx2, 36, c05_dispatch_avx2_dna_l33, dispatch_body::<Dna, 33>(Dispatch:
 harness!(avx2, 20, c05_dispatch_sse2_dna_l17, dispatch_body::<Dna, 17>(Dispatch::Sse2));
 //@ C05 quick 800 EncodedSequence::encode via dispatcher, generic arm, protein, 5 bytes
 harness!(avx2, 24, c05_dispatch_generic_protein_l5, dispatch_body::<Protein, 5>(Dispatch::Generic));
-//@ C05 thorough 3600 EncodedSequence::encode via dispatcher, AVX2 arm, DNA, 97 bytes (three blocks + 1 tail byte)
+//@ C05 quick 800 EncodedSequence::encode via dispatcher, AVX2 arm, DNA, 97 bytes (three blocks + 1 tail byte)
 harness!(avx2, 100, c05_dispatch_avx2_dna_l97, dispatch_body::<Dna, 97>(Dispatch::Avx2));
-//@ C05 thorough 900 EncodedSequence::encode via dispatcher, AVX2 arm, protein, 33 bytes
+//@ C05 quick 800 EncodedSequence::encode via dispatcher, AVX2 arm, protein, 33 bytes
 harness!(avx2, 36, c05_dispatch_avx2_protein_l33, dispatch_body::<Protein, 33>(Dispatch::Avx2));
